@@ -207,6 +207,23 @@ fn body(ctx: &mut Ctx) {
             expect_nat(ctx, "BigUint::default()", &args, r, &Nat::zero());
             let r = call(ctx, || BigUint::one());
             expect_nat(ctx, "BigUint::one()", &args, r, &Nat::one());
+            // trait-level constants and predicates (generic code reaches these, not the inherent items)
+            fn consts<T: num_traits::ConstZero + One + Default + Zero + PartialEq>() -> (bool, bool, bool, bool) {
+                (T::ZERO == T::zero(), T::ZERO.is_zero(), T::one().is_one() && !T::one().is_zero(), T::default() == T::ZERO && !T::ZERO.is_one())
+            }
+            ctx.compared(2);
+            let r = call(ctx, consts::<BigInt>);
+            if r != Out::Ret((true, true, true, true)) {
+                ctx.viol("BigInt ConstZero/Zero/One/Default".to_string(), "trait-level ZERO / zero() / one() / default() disagree", vec![], "(true, true, true, true)".to_string(), format!("{:?}", r));
+            }
+            let r = call(ctx, consts::<BigUint>);
+            if r != Out::Ret((true, true, true, true)) {
+                ctx.viol("BigUint ConstZero/Zero/One/Default".to_string(), "trait-level ZERO / zero() / one() / default() disagree", vec![], "(true, true, true, true)".to_string(), format!("{:?}", r));
+            }
+            let r = call(ctx, || <BigInt as num_traits::ConstZero>::ZERO);
+            expect_int(ctx, "<BigInt as ConstZero>::ZERO", &args, r, &Int::zero());
+            let r = call(ctx, || <BigUint as num_traits::ConstZero>::ZERO);
+            expect_nat(ctx, "<BigUint as ConstZero>::ZERO", &args, r, &Nat::zero());
         }
     }
     if ctx.space("AS") {
